@@ -1,16 +1,50 @@
 (* Run_C03.v — correspondence: evaluate Model_Wal (instantiated with the
    executable CRC-32C) on the histories the harness ran against consensus/wal.go
    on real files, and report the indices where model and observation differ. *)
+From Coq Require Import String Ascii.
 From Goloop Require Import lib.Bytes lib.Crc32c Model_Wal.
 Open Scope N_scope.
+
+(* ---- compact notations for the case files (parsing list-of-N literals is slow) ---- *)
+(* hx "0aff" = [10; 255] *)
+Definition hexval (c : ascii) : N :=
+  let n := N_of_ascii c in
+  if n <? 58 then n - 48 else n - 87.
+Fixpoint hx (s : string) : bytes :=
+  match s with
+  | String a (String b r) => (hexval a * 16 + hexval b) :: hx r
+  | _ => []
+  end.
+(* pg seed len: the harness's payload generator (prngBytes) for payloads that are
+   not printed literally: xorshift32, one byte (the low one) per step *)
+Definition xs32 (x : N) : N :=
+  let m := 4294967295 in
+  let x := N.lxor x (N.land (N.shiftl x 13) m) in
+  let x := N.lxor x (N.shiftr x 17) in
+  N.lxor x (N.land (N.shiftl x 5) m).
+Fixpoint pg_aux (n : nat) (x : N) : bytes :=
+  match n with
+  | O => []
+  | S k => let x' := xs32 x in N.land x' 255 :: pg_aux k x'
+  end.
+Definition pg (seed len : N) : bytes := pg_aux (N.to_nat len) (N.lor seed 1).
+
+(* an observed byte string: literal, or length and CRC-32C (computed by Go's
+   hash/crc32 in the harness) when it is long *)
+Inductive blob := Lit (b : bytes) | Dig (len crc : N).
+Definition blob_eqb (m : bytes) (o : blob) : bool :=
+  match o with
+  | Lit b => bytes_eqb m b
+  | Dig l c => (N.of_nat (length m) =? l) && (crc32c m =? c)
+  end.
 
 (* what one recovery was observed to do: payloads returned by the ReadBytes
    loop, class of the final error (0 EOF, 1 UnexpectedEOF, 2 Corrupted), and
    the bytes of every segment file after CloseAndRepair / before reopening *)
-Inductive obs := Obs (recs : list bytes) (err : N) (files : list (N * bytes)).
+Inductive obs := Obs (recs : list blob) (err : N) (files : list (N * blob)).
 
 Inductive case :=
-| CHist (ops : list op) (observed : list obs) (final : list (N * bytes))
+| CHist (ops : list op) (observed : list obs) (final : list (N * blob))
     (* a history from an empty directory; one obs per Recover; final = the
        segment files as they are on disk after the last operation *)
 | CDisk (d : list (N * bytes)) (o : obs)
@@ -28,9 +62,9 @@ Fixpoint list_eqb {A B} (eq : A -> B -> bool) (a : list A) (b : list B) : bool :
   | _, _ => false
   end.
 
-Definition seg_eqb (a b : N * bytes) : bool := (fst a =? fst b) && bytes_eqb (snd a) (snd b).
+Definition seg_eqb (a : N * bytes) (b : N * blob) : bool := (fst a =? fst b) && blob_eqb (snd a) (snd b).
 Definition disk_eqb := list_eqb seg_eqb.
-Definition recs_eqb := list_eqb bytes_eqb.
+Definition recs_eqb := list_eqb blob_eqb.
 
 Definition obs_eqb (m : list bytes * rerr * disk) (o : obs) : bool :=
   let '(recs, e, d) := m in
